@@ -172,10 +172,13 @@ impl Runner {
             .stdin(Stdio::null())
             .stdout(Stdio::from(out_f))
             .stderr(Stdio::from(err_f));
+        let aslr = case.plan.aslr;
         unsafe {
-            cmd.pre_exec(|| {
-                // Fixed address-space layout; CPU and memory limits.
-                libc::personality(0x0040000 /* ADDR_NO_RANDOMIZE */);
+            cmd.pre_exec(move || {
+                // Fixed address-space layout (unless the plan says otherwise); CPU and memory limits.
+                if !aslr {
+                    libc::personality(0x0040000 /* ADDR_NO_RANDOMIZE */);
+                }
                 let cpu = libc::rlimit { rlim_cur: 60, rlim_max: 65 };
                 libc::setrlimit(libc::RLIMIT_CPU, &cpu);
                 let mem = libc::rlimit { rlim_cur: 2 << 30, rlim_max: 2 << 30 };
